@@ -101,11 +101,16 @@ func (g *gen) at(pos string, f func() string) string {
 // wrapSpy wraps a scalar expression in a spy call with probability SpyPct.
 func (g *gen) wrapSpy(e string) string {
 	if g.f.Spies && g.f.SpyPct > 0 && g.r.P(g.f.SpyPct) {
-		switch g.r.N(3) {
+		switch g.r.N(5) {
 		case 0:
 			return "spy('" + g.spyID() + "', " + e + ")"
 		case 1:
 			return "(" + e + ")|spyf('" + g.spyID() + "')"
+		case 2:
+			// a fallible callback as the BASE of a chain of built-in filters (default, length, …)
+			return "spy('" + g.spyID() + "', " + e + ")|" + pick(g.r, []string{"default('d')", "default('d')|upper", "length", "upper|default('x')", "e", "trim|default('')", "json_encode"})
+		case 3:
+			return "(" + e + ")|spyf('" + g.spyID() + "')|" + pick(g.r, []string{"default('d')", "length", "e", "first"})
 		default:
 			return "spy('" + g.spyID() + "', " + e + ")|spyf('" + g.spyID() + "')"
 		}
